@@ -1706,7 +1706,7 @@ func (ctx Ctx) refExpr(s ast.Expr) coq.Expr {
 		if info.throughPointer {
 			structExpr = ctx.expr(s.X)
 		} else {
-			structExpr = ctx.refExpr(s.X)
+			structExpr = ctx.fieldBase(s.X)
 		}
 		ctx.dep.addDep(info.name)
 		return coq.NewCallExpr(coq.GallinaIdent("struct.fieldRef"), coq.StructDesc(info.name),
@@ -1716,6 +1716,16 @@ func (ctx Ctx) refExpr(s ast.Expr) coq.Expr {
 		ctx.futureWork(s, "reference to other types of expressions")
 		return nil
 	}
+}
+
+// fieldBase translates the struct a field is stored to or referenced in, for a
+// struct that is not reached through a pointer: it must live in a location,
+// i.e. in a variable declared with var (pointer-wrapped) or in a field of one.
+func (ctx Ctx) fieldBase(x ast.Expr) coq.Expr {
+	if ident, ok := x.(*ast.Ident); ok && !ctx.isPtrWrapped(ident) {
+		ctx.unsupported(x, "field of %s is not assignable: %s is a struct value, not a variable\n\t(declare it with 'var' to pointer-wrap in GooseLang)", ident.Name, ident.Name)
+	}
+	return ctx.refExpr(x)
 }
 
 func (ctx Ctx) pointerAssign(dst *ast.Ident, x coq.Expr) coq.Binding {
@@ -1789,7 +1799,7 @@ func (ctx Ctx) assignFromTo(s ast.Node,
 		if info.throughPointer {
 			structExpr = ctx.expr(lhs.X)
 		} else {
-			structExpr = ctx.refExpr(lhs.X)
+			structExpr = ctx.fieldBase(lhs.X)
 		}
 		if ok {
 			fieldName := lhs.Sel.Name
